@@ -230,7 +230,7 @@ class Entity(ABC):
     def metadata(self, value: dict | None):
         if isinstance(value, dict):
             if isinstance(self.metadata, dict):
-                self._metadata.update(value)  # type: ignore
+                self._metadata = {**self._metadata, **value}  # type: ignore
             else:
                 self._metadata = value
         elif value is None:  # remove the metadata
